@@ -319,6 +319,38 @@ def job_outlive(payload):
     return out
 
 
+def job_vocdrop(payload):
+    """A query outlives the vocabulary it was compiled with (the vocabulary is destroyed right after zw_query_parse): words defined in
+    both the core and the DWARF vocabulary (merged by zw_vocabulary_add), applied to operands they accept and to operands they refuse
+    (the diagnostic names the word), constants, assertions, closures."""
+    seed, count = payload
+    d = common.get_driver()
+    rng = random.Random(seed)
+    out = {"vocdrop_runs": 0, "bad": []}
+    words = ["length", "elem", "relem", "add", "sub", "?empty", "!empty", "low", "high", "value", "?find", "?starts", "name", "offset", "label", "pos", "type", "hex",
+             "?eq", "?contains", "?overlaps", "range", "address", "root", "child", "parent", "?root", "?haschildren", "abbrev", "code", "form", "symbol", "unit", "entry"]
+    operands = ["1", '"ab"', "[1, 2]", "0 5 aset", "[]", "{1}", "true", "DW_AT_name", "1 2", '"a" [1]', "0 5 aset 2", "0 5 aset (2 9 aset)", ""]
+    for i in range(count):
+        t = "%s %s" % (rng.choice(operands), rng.choice(words))
+        if rng.random() < 0.2:
+            t = "%s ?(%s) %s" % (rng.choice(operands), rng.choice(words), rng.choice(words))
+        try:
+            a = d.run(t, fuel=100000, max=200)
+            b = d.run(t, fuel=100000, max=200, voc="grow", vocdrop=1)
+            out["vocdrop_runs"] += 1
+            if b["evbad"]:
+                out["bad"].append(("api-contract", dict(text=t, ev=b["ev"])))
+            if (a["st"], a.get("res"), a["stderr"]) != (b["st"], b.get("res"), b["stderr"]):
+                out["bad"].append(("query-whose-vocabulary-was-destroyed-behaves-differently", dict(text=t, with_vocabulary=dict(st=a["st"], stderr=a["stderr"][:200], n=len(a.get("res", []))),
+                                                                                                  without=dict(st=b["st"], stderr=b["stderr"][:200], n=len(b.get("res", []))))))
+        except common.DriverCrash as ex:
+            out["bad"].append(("crash:" + getattr(ex, "key", ex.kind), dict(text=t, report=ex.report[-3000:])))
+        except common.DriverTimeout as ex:
+            out["bad"].append(("hang", dict(text=t)))
+    out["bad"] = out["bad"][:40]
+    return out
+
+
 def job_hetero(payload):
     """Sequences whose elements are of every type, lined up against each other by the haystack/needle words, the comparisons,
     `add` and the formatter: every pair of element types meets in value::cmp (where 'not my type' has to be an answer, not a cast)."""
@@ -499,6 +531,7 @@ def run(chk):
     wl += ["`" * k + "[" + b + "]" for k in range(1, 7) for b in ("", "1", "dup", "1, 2", "drop")]
     wl += ["(|A B C| A)", "(|A B C D E| A)", "let A B C := ;", "[|A B| A]", "?(|A B C| A)", "{} apply", "rot rot rot", "over over", "swap drop drop"]
     zcheck.consume(chk, pool.map(job_shallow, [(wl[i:i + 25],) for i in range(0, len(wl), 25)]), tot, ctx, samples, "C13 shallow")
+    zcheck.consume(chk, pool.map(job_vocdrop, [(chk.seed * 31 + i, 120) for i in range(16 if quick else 300)]), tot, ctx, samples, "C13 vocabulary dropped")
     zcheck.consume(chk, pool.map(job_hetero, [(chk.seed * 29 + i, 150) for i in range(16 if quick else 400)]), tot, ctx, samples, "C13 hetero")
     zcheck.consume(chk, pool.map(job_outlive, [(chk.seed * 23 + i, 40) for i in range(16 if quick else 400)]), tot, ctx, samples, "C13 outlive")
     hs = pool.hook_stats()
@@ -519,6 +552,7 @@ def run(chk):
         "mutated_queries": tot.get("mutants", 0), "rejected_queries": tot.get("rejected", 0), "accepted_queries_leak_checked": tot.get("accepted", 0),
         "dwarf_runs": tot.get("dw_runs", 0), "dwarf_files": [os.path.basename(f) for f in files],
         "leak_checks": tot.get("leakchecks", 0), "core_word_x_operand_runs_in_leak_checked_processes": tot.get("word_leak_runs", 0),
+        "runs_of_queries_whose_vocabulary_was_destroyed_after_the_parse": tot.get("vocdrop_runs", 0),
         "runs_lining_up_elements_of_different_types": tot.get("hetero_runs", 0),
         "runs_on_values_that_outlived_their_query": tot.get("outlive_runs", 0), "of_which_yielded": tot.get("outlive_applied", 0),
         "word_x_boundary_depth_runs": tot.get("shallow_runs", 0), "of_which_raised_cleanly": tot.get("shallow_errors", 0),
